@@ -179,61 +179,229 @@ def _shuffle_kw(rng):
     return {"method": m, "mb": rng.choice(BRANCH) if m != "disk" else rng.choice((None, None, 2))}
 
 
+def _fill(c, rng, op):
+    """keywords of one base case (the order of the rng calls is part of the calibrated stream)"""
+    c["op"] = op
+    c.update(_shuffle_kw(rng))
+    if op == "shuffle":
+        r = rng.random()
+        if r < 0.12:
+            c["on"] = "@index"          # on_index=True
+        elif r < 0.2:
+            c["on"] = "@name"           # on=[index name] (only when the index has a name)
+        else:
+            c["on"] = rng.sample(KEYCOLS, rng.choice((1, 1, 1, 2, 2, 3)))
+        c["np"] = rng.choice((None, None, 1, 2, 3, 4, 5, 7, 9))
+        c["ignore_index"] = rng.random() < 0.25
+        c["accessor"] = rng.random() < 0.25
+        c["onform"] = rng.choice(("list", "list", "str")) if isinstance(c["on"], list) and len(c["on"]) == 1 else "list"
+    elif op == "sort":
+        k = rng.choice((1, 1, 2, 2, 3))
+        c["by"] = rng.sample(KEYCOLS, k)
+        c["asc"] = rng.choice((True, True, False)) if rng.random() < 0.6 else [rng.random() < 0.5 for _ in range(k)]
+        c["na"] = rng.choice(("last", "last", "first"))
+        c["np"] = rng.choice((None, None, None, 1, 2, 3, 5, 8))
+        c["ignore_index"] = rng.random() < 0.1
+        c["also_compute"] = rng.random() < 0.5
+        c["byform"] = "str" if k == 1 and rng.random() < 0.4 else "list"
+    elif op == "set_index":
+        c["col"] = rng.choice(("a", "b", "d", "e", "t", "k", "k2", "u", "u", "f", "c", "n"))
+        c["mode"] = rng.choice(("plain", "plain", "npartitions", "divisions", "divisions", "sorted"))
+        c["drop"] = rng.random() < 0.75
+        c["np"] = rng.randint(1, 8)
+        c["dseed"] = rng.randrange(2 ** 31)
+        c["beyond"] = rng.random() < 0.3
+        c["also_compute"] = rng.random() < 0.5
+    else:
+        kind = rng.choice(("df", "df", "df", "df", "preshuffled", "preshuffled", "series", "series_unique", "series_nunique",
+                           "df_nunique", "index"))
+        c["kind"] = kind
+        c["dcols"] = rng.sample(LOWCARD, rng.choice((1, 2, 2, 3))) + (["c"] if rng.random() < 0.4 else [])
+        c["subset"] = rng.choice((None, None, "first1", "first2", "some"))
+        c["keep"] = rng.choice(("first", "first", "last")) if rng.random() < 0.96 else False
+        c["pre"] = rng.choice(("key1", "key1", "all", "first2"))      # columns of the preceding shuffle (kind preshuffled)
+        c["split_out"] = rng.choice((True, True, 1, 2, 3, 5))
+        c["split_every"] = rng.choice((None, None, 2, 3, False))
+        c["ignore_index"] = rng.random() < 0.2
+        c["dropna"] = rng.random() < 0.6
+        c["axis"] = 1 if rng.random() < 0.25 else 0
+        c["scol"] = rng.choice(KEYCOLS)
+        c["iop"] = rng.choice(("drop_duplicates", "unique", "nunique"))
+    return c
+
+
+PREKEYS = ("a", "b", "d", "e")          # keys of the pre-steps: no NA (merge / groupby semantics of NA belong to C38/C39)
+
+
+def _pre_desc(rx, must=None):
+    """an EARLIER operation that leaves hash-partitioning knowledge on a key tuple (see ``_apply_pre``)"""
+    keys = rx.sample(PREKEYS, rx.choice((1, 2, 2, 3)))
+    if must is not None and must not in keys:
+        keys[0] = must
+    return {"kind": rx.choice(("shuffle", "shuffle+assign", "shuffle+rename", "shuffle+prefix", "shuffle+repart", "merge", "merge",
+                               "dedup", "groupby", "groupby")),
+            "keys": keys, "np": rx.choice((None, None, 2, 3, 5)), "method": rx.choice((None, "tasks", "disk")),
+            "rnp": rx.randint(1, 3)}
+
+
+def _post_desc(rx, kinds):
+    return {"kind": rx.choice(kinds), "n": rx.choice((0, 1, 2, 3, 5, 8, 13, 50)), "fcol": rx.choice(("a", "d", "u", "f")),
+            "q": rx.choice((0.0, 0.3, 0.5, 0.8)), "cols": rx.randrange(2 ** 16)}
+
+
+def _ext_case(rx):
+    """one case of the parameter-audit stream: a base description plus ``x`` = the keywords / input classes / pre- and
+    post-steps that the base stream never produces"""
+    c = _base(rx)
+    if c["nrows"] < 4:
+        c["nrows"] = rx.randint(4, 40)
+    op = rx.choice(("shuffle", "sort", "sort", "set_index", "set_index", "dedup"))
+    _fill(c, rx, op)
+    x = {}
+    big = rx.random() < 0.07 and op != "dedup"
+    if big:                                   # size class: hundreds of rows (quantile summaries get compressed / interpolated)
+        c["nrows"] = rx.randint(300, 1200)
+        c["part"] = _pdesc(rx, c["nrows"]) if rx.random() < 0.5 else {"how": "npartitions", "n": rx.randint(3, 12), "clear": rx.random() < 0.3}
+        if c["part"].get("how") == "chunksize":
+            c["part"]["n"] = max(c["part"]["n"], 40)
+        x["big"] = True
+    if op == "shuffle":
+        r = rx.random()
+        if r < 0.35:
+            x["onkind"] = rx.choice(("series", "series", "indexobj", "frame", "col+index", "col+index"))
+            if not isinstance(c["on"], list):
+                c["on"] = rx.sample(KEYCOLS, rx.choice((1, 2)))
+            c["onform"] = "list"
+        elif r < 0.45:
+            x["ser"] = rx.choice(KEYCOLS)     # Series.shuffle(on_index=True)
+        if rx.random() < 0.25:
+            x["force"] = True
+        if rx.random() < 0.1 and not big:
+            c["np"] = rx.choice((130, 200, 257))
+            x["bignp"] = True
+        if rx.random() < 0.3 and "onkind" not in x and "ser" not in x:
+            x["pre"] = _pre_desc(rx)
+            if isinstance(c["on"], list) and rx.random() < 0.7:      # shuffle again on a part / superset / the same keys
+                k = x["pre"]["keys"]
+                c["on"] = rx.choice((k[:1], list(k), list(k) + [rx.choice(("k", "n", "s"))]))
+                c["onform"] = "list"
+        if rx.random() < 0.3 and "ser" not in x:
+            x["post"] = _post_desc(rx, ("project", "filter"))
+    elif op == "sort":
+        r = rx.random()
+        if r < 0.3:
+            x["sf"] = rx.choice(("func", "kwargs"))
+        if rx.random() < 0.3:
+            x["upsample"] = rx.choice((0.5, 2.0, 10.0))
+        if rx.random() < 0.25:
+            x["presort"] = rx.choice(("asc", "desc", "match"))      # input already ordered by the first key
+            if rx.random() < 0.6:
+                c["by"][0] = rx.choice(("u", "f", "t", "a", "b"))   # mostly a first key without NA: the shortcut applies
+                c["by"] = list(dict.fromkeys(c["by"]))
+                if not isinstance(c["asc"], bool):
+                    c["asc"] = c["asc"][:len(c["by"])]
+        if rx.random() < 0.04:
+            c["np"] = "auto"
+        if rx.random() < 0.25:
+            x["pre"] = _pre_desc(rx)
+        if rx.random() < 0.45:
+            x["post"] = _post_desc(rx, ("head", "head", "tail", "tail", "project", "filter"))
+        if rx.random() < 0.2:
+            x["second"] = {"na": rx.choice(("first", "last")), "method": rx.choice(METHODS), "by2": rx.sample(KEYCOLS, 2),
+                           "asc2": [rx.random() < 0.5, rx.random() < 0.5]}
+    elif op == "set_index":
+        r = rx.random()
+        if r < 0.3:
+            x["other"] = rx.choice(("list1", "series", "series", "expr", "expr"))
+            if x["other"] == "expr":
+                c["col"] = rx.choice(("a", "d", "u", "f", "c", "n"))
+        elif r < 0.45:
+            c["mode"] = "nosort"
+        elif r < 0.6:
+            c["mode"] = "sorted_div"
+        elif r < 0.63:
+            c["mode"] = "auto"
+        if rx.random() < 0.3:
+            x["upsample"] = rx.choice((0.5, 2.0, 10.0))
+        if rx.random() < 0.25:
+            x["pre"] = _pre_desc(rx)
+        if rx.random() < 0.45:
+            x["post"] = _post_desc(rx, ("head", "head", "tail", "tail", "project", "filter"))
+        if rx.random() < 0.2:
+            x["second"] = {"drop": rx.random() < 0.5, "method": rx.choice(METHODS)}
+    else:
+        r = rx.random()
+        if r < 0.55:
+            # de-duplication of a frame that carries partitioning knowledge from an earlier shuffle / merge / groupby /
+            # drop_duplicates: on a part of, all of, or more than the known key tuple
+            c["kind"] = "preshuffled"
+            pre = _pre_desc(rx)
+            x["pre"] = pre
+            k = list(pre["keys"])
+            extra = rx.choice(("u", "f", "a", "b", "d", "e"))
+            c["dcols"] = list(dict.fromkeys(k + [extra]))
+            x["subset"] = rx.choice((None, k[:1], k[:1], list(k), list(k) + [extra], [extra], k[-1:]))
+        elif r < 0.7:
+            x["serpre"] = True               # Series facets on a column of a shuffled frame
+            c["kind"] = rx.choice(("series", "series_unique", "series_nunique"))
+        elif r < 0.85:
+            c["kind"] = "index"
+            x["ixkw"] = True                 # Index.drop_duplicates / unique with split_every / shuffle_method / keep
+        if rx.random() < 0.5:
+            x["subset_str"] = True
+        if rx.random() < 0.5:
+            # more input partitions than split_every: an intermediate combine level / a widened shuffle exists
+            c["part"] = {"how": "npartitions", "n": rx.randint(5, 12), "clear": rx.random() < 0.2}
+            c["nrows"] = max(c["nrows"], 24)
+            c["split_every"] = rx.choice((2, 2, 3))
+            c["split_out"] = rx.choice((1, 1, 2, True))
+    c["x"] = x
+    return c
+
+
 def cases(tier, seed):
     rng = random.Random(seed * 40503 % (2 ** 31) + 40)
+    rx = random.Random(seed * 7919 % (2 ** 31) + 4040)      # private stream of the audit cases (base stream unchanged)
     n = 1800 if tier == "quick" else 24000
     for i in range(n):
         c = _base(rng)
         if i % 4 == 0:      # every block of four holds each facet once, in random order (shards take i % nshards)
             block = rng.sample(("shuffle", "sort", "set_index", "dedup"), 4)
-        op = block[i % 4]
-        c["op"] = op
-        c.update(_shuffle_kw(rng))
-        if op == "shuffle":
-            r = rng.random()
-            if r < 0.12:
-                c["on"] = "@index"          # on_index=True
-            elif r < 0.2:
-                c["on"] = "@name"           # on=[index name] (only when the index has a name)
-            else:
-                c["on"] = rng.sample(KEYCOLS, rng.choice((1, 1, 1, 2, 2, 3)))
-            c["np"] = rng.choice((None, None, 1, 2, 3, 4, 5, 7, 9))
-            c["ignore_index"] = rng.random() < 0.25
-            c["accessor"] = rng.random() < 0.25
-            c["onform"] = rng.choice(("list", "list", "str")) if isinstance(c["on"], list) and len(c["on"]) == 1 else "list"
-        elif op == "sort":
-            k = rng.choice((1, 1, 2, 2, 3))
-            c["by"] = rng.sample(KEYCOLS, k)
-            c["asc"] = rng.choice((True, True, False)) if rng.random() < 0.6 else [rng.random() < 0.5 for _ in range(k)]
-            c["na"] = rng.choice(("last", "last", "first"))
-            c["np"] = rng.choice((None, None, None, 1, 2, 3, 5, 8))
-            c["ignore_index"] = rng.random() < 0.1
-            c["also_compute"] = rng.random() < 0.5
-            c["byform"] = "str" if k == 1 and rng.random() < 0.4 else "list"
-        elif op == "set_index":
-            c["col"] = rng.choice(("a", "b", "d", "e", "t", "k", "k2", "u", "u", "f", "c", "n"))
-            c["mode"] = rng.choice(("plain", "plain", "npartitions", "divisions", "divisions", "sorted"))
-            c["drop"] = rng.random() < 0.75
-            c["np"] = rng.randint(1, 8)
-            c["dseed"] = rng.randrange(2 ** 31)
-            c["beyond"] = rng.random() < 0.3
-            c["also_compute"] = rng.random() < 0.5
-        else:
-            kind = rng.choice(("df", "df", "df", "df", "preshuffled", "preshuffled", "series", "series_unique", "series_nunique",
-                               "df_nunique", "index"))
-            c["kind"] = kind
-            c["dcols"] = rng.sample(LOWCARD, rng.choice((1, 2, 2, 3))) + (["c"] if rng.random() < 0.4 else [])
-            c["subset"] = rng.choice((None, None, "first1", "first2", "some"))
-            c["keep"] = rng.choice(("first", "first", "last")) if rng.random() < 0.96 else False
-            c["pre"] = rng.choice(("key1", "key1", "all", "first2"))      # columns of the preceding shuffle (kind preshuffled)
-            c["split_out"] = rng.choice((True, True, 1, 2, 3, 5))
-            c["split_every"] = rng.choice((None, None, 2, 3, False))
-            c["ignore_index"] = rng.random() < 0.2
-            c["dropna"] = rng.random() < 0.6
-            c["axis"] = 1 if rng.random() < 0.25 else 0
-            c["scol"] = rng.choice(KEYCOLS)
-            c["iop"] = rng.choice(("drop_duplicates", "unique", "nunique"))
-        yield c
+        yield _fill(c, rng, block[i % 4])
+        if rx.random() < 0.4:                                # at random positions: every shard gets its share
+            yield _ext_case(rx)
+
+
+_TMP = []
+_CASES = [0]
+
+
+def _private_tmp():
+    """every disk shuffle leaves a ``*.partd`` directory in dask's temporary directory: point it at a private directory
+    that is removed when the shard ends (``shard_finish`` / atexit)"""
+    import atexit
+    import shutil
+    import tempfile
+
+    import dask
+
+    if not _TMP:
+        d = tempfile.mkdtemp(prefix="vf-c40partd-")
+        _TMP.append(d)
+        atexit.register(shutil.rmtree, d, True)
+    dask.config.set({"temporary-directory": _TMP[0]})
+
+
+def _sweep_tmp():
+    import os
+    import shutil
+
+    for d in _TMP:
+        try:
+            for f in os.listdir(d):
+                shutil.rmtree(os.path.join(d, f), ignore_errors=True)
+        except OSError:
+            pass
 
 
 def shard_setup(tier, seed):
@@ -243,7 +411,16 @@ def shard_setup(tier, seed):
     import dask
 
     dask.config.set(scheduler="sync")
+    _private_tmp()
     warnings.simplefilter("ignore")
+
+
+def shard_finish():
+    import shutil
+
+    while _TMP:
+        shutil.rmtree(_TMP.pop(), ignore_errors=True)
+    return {}
 
 
 # --------------------------------------------------------------------------- frames
@@ -352,6 +529,10 @@ def run_case(case, ctx):
         from vf.gen import frames as F
 
         F.setup()
+        _private_tmp()
+        _CASES[0] += 1
+        if _CASES[0] % 50 == 0:
+            _sweep_tmp()
         pdf = make_frame(case)
         try:
             ddf = F.partition(pdf, case["part"])
@@ -417,48 +598,233 @@ def _presorted_ignoring_na(ddf, col, ascending=True):
     return "&input-presorted-by-non-NA-values" if ok else ""
 
 
+# ---- pre- and post-steps (audit stream) ------------------------------------------------------------------------------
+def _apply_pre(pre, pdf, ddf):
+    """an EARLIER operation on both sides -> (pdf2, ddf2, info).  Every kind leaves hash-partitioning knowledge on the
+    key tuple ``pre["keys"]`` in the dask expression (``unique_partition_mapping_columns_from_shuffle``):
+    shuffle (+ a blockwise assign / rename / add_prefix / a repartition to fewer partitions), a hash merge with the frame
+    of distinct keys (every left row matches exactly once), drop_duplicates on keys + the unique column ``u`` (drops
+    nothing), groupby(keys).agg(split_out).reset_index().  info: index_ok (the index still equals pandas'), colmap
+    (renamed columns), keys (the key tuple under its new names), u_unique."""
+    import numpy as np
+
+    import dask.dataframe as dd
+
+    K, kind, m, np_ = list(pre["keys"]), pre["kind"], pre.get("method"), pre.get("np")
+    colmap, index_ok = {}, True
+    if kind.startswith("shuffle"):
+        d, p = ddf.shuffle(on=K, npartitions=np_, shuffle_method=m), pdf
+        if kind == "shuffle+assign":
+            d, p = d.assign(zz=1), p.assign(zz=1)
+        elif kind == "shuffle+rename":
+            colmap = {K[0]: K[0] + "_r"}
+            d, p = d.rename(columns=colmap), p.rename(columns=colmap)
+        elif kind == "shuffle+prefix":
+            colmap = {c: "p_" + c for c in pdf.columns}
+            d, p = d.add_prefix("p_"), p.add_prefix("p_")
+        elif kind == "shuffle+repart":
+            d = d.repartition(npartitions=max(1, d.npartitions // 2))
+    elif kind == "merge":
+        right = pdf[K].drop_duplicates().reset_index(drop=True)
+        right["w"] = np.arange(len(right), dtype="int64")
+        dr = dd.from_pandas(right, npartitions=pre.get("rnp", 2))
+        d = ddf.merge(dr, on=K, how="inner", broadcast=False, shuffle_method=m)
+        p = pdf.merge(right, on=K, how="inner")
+        index_ok = False
+    elif kind == "dedup":
+        d, p = ddf.drop_duplicates(subset=K + ["u"], split_out=np_ or True, shuffle_method=m), pdf
+    elif kind == "groupby":
+        spec = {"u": "sum", "f": "max"}
+        d = ddf.groupby(K).agg(spec, split_out=np_ or 2, shuffle_method=m).reset_index()
+        p = pdf.groupby(K).agg(spec).reset_index()
+        index_ok = False
+    else:
+        raise ValueError(kind)
+    return p, d, {"index_ok": index_ok, "colmap": colmap, "keys": [colmap.get(c, c) for c in K],
+                  "u_unique": bool(colmap.get("u", "u") in p.columns and p[colmap.get("u", "u")].is_unique), "kind": kind}
+
+
+def _pre(case, ctx, pdf, ddf):
+    """-> (pdf, ddf, info) with the pre-step of the case applied (info None without one); None when it cannot be built"""
+    x = case.get("x") or {}
+    if not x.get("pre"):
+        return pdf, ddf, None
+    try:
+        p, d, info = _apply_pre(x["pre"], pdf, ddf)
+    except Exception as e:  # noqa: BLE001  (building merge / groupby / ... is the business of their own properties)
+        ctx.unsupported("pre-step %s could not be built: %s: %s" % (x["pre"]["kind"], type(e).__name__, e))
+        return None
+    ctx.count("pre_steps_applied")
+    ctx.count("pre_step_" + info["kind"].split("+")[0])
+    return p, d, info
+
+
+def _remap(cols, info, avail):
+    """column names of the case after a pre-step that renamed / removed columns (falls back to the pre-step's keys)"""
+    if info is None:
+        return list(cols)
+    out = [info["colmap"].get(c, c) for c in cols]
+    out = list(dict.fromkeys(c for c in out if c in avail))
+    return out or list(info["keys"][:max(1, len(cols))])
+
+
+def _threshold(pdf, fc, q):
+    """a value of numeric column ``fc`` for the filter post-step (None: no usable column)"""
+    import pandas as pd
+
+    if fc not in pdf.columns or not pd.api.types.is_numeric_dtype(pdf[fc].dtype) or len(pdf) == 0:
+        return None
+    v = pdf[fc].dropna()
+    if len(v) == 0:
+        return None
+    return v.sort_values().iloc[min(len(v) - 1, int(q * len(v)))].item()
+
+
 # ---- shuffle ---------------------------------------------------------------------------------------------------------
 def _shuffle(case, ctx, pdf, ddf):
+    import pandas as pd
+
     from vf.gen import frames as F
 
+    x = case.get("x") or {}
+    pre = _pre(case, ctx, pdf, ddf)
+    if pre is None:
+        return
+    pdf, ddf, info = pre
+    index_ok = info is None or info["index_ok"]
     on = case["on"]
+    if isinstance(on, list):
+        on = _remap(on, info, list(pdf.columns))
     kw = {"ignore_index": case["ignore_index"], "npartitions": case["np"], "shuffle_method": case["method"]}
     kw.update(_opts(case))
-    if on == "@index":
+    if x.get("force"):
+        kw["force"] = True
+    src_d, src_p = ddf, pdf
+    onkind = x.get("onkind")
+    if x.get("ser"):
+        # Series.shuffle(on_index=True): the one-dimensional path of RearrangeByColumn
+        col = _remap([x["ser"]], info, list(pdf.columns))[0]
+        src_d, src_p = ddf[col], pdf[[col]]
+        kw["on_index"] = True
+        on = "@index"
+        keyframe = lambda p: p.index.to_frame(index=False)  # noqa: E731
+        onfeat = "&series&on-index"
+    elif on == "@index":
         kw["on_index"] = True
         keyframe = lambda p: p.index.to_frame(index=False)  # noqa: E731
         onfeat = "&on-index"
     elif on == "@name":
-        if pdf.index.name is None:
+        if pdf.index.name is None or not index_ok:
             ctx.reject("index has no name")
             return
         kw["on"] = [pdf.index.name]
         keyframe = lambda p: p.index.to_frame(index=False)  # noqa: E731
         onfeat = "&on-index-name"
+    elif onkind == "series":
+        kc = on[0]
+        if str(pdf[kc].dtype) == "int64":
+            kw["on"] = ddf[kc] % 3
+            keyframe = lambda p: p[[kc]] % 3  # noqa: E731
+        else:
+            kw["on"] = ddf[kc]
+            keyframe = lambda p: p[[kc]]  # noqa: E731
+        on = [kc]
+        onfeat = "&on-series-object"
+    elif onkind == "indexobj":
+        kw["on"] = ddf.index
+        on = "@index"
+        keyframe = lambda p: p.index.to_frame(index=False)  # noqa: E731
+        onfeat = "&on-index-object"
+    elif onkind == "frame":
+        kw["on"] = ddf[list(on)]
+        keyframe = lambda p: p[list(on)]  # noqa: E731
+        onfeat = "&on-frame-object"
+    elif onkind == "col+index":
+        if pdf.index.name is None:
+            ctx.reject("index has no name")
+            return
+        on = [on[0]]
+        kw["on"] = [on[0], pdf.index.name]
+        keyframe = lambda p: p[[on[0]]].reset_index()  # noqa: E731
+        onfeat = "&on-column+index-name"
     else:
-        kw["on"] = on[0] if case.get("onform") == "str" else list(on)
+        kw["on"] = on[0] if case.get("onform") == "str" and len(on) == 1 else list(on)
         keyframe = lambda p: p[list(on)]  # noqa: E731
         onfeat = ""
-    nout = case["np"] or ddf.npartitions
-    method, staged = _stages(case["method"], case["mb"], ddf.npartitions, nout)
+    usesindex = on in ("@index", "@name") or onkind == "col+index"
+    nout = case["np"] or src_d.npartitions
+    method, staged = _stages(case["method"], case["mb"], src_d.npartitions, nout)
     view = "accessor" if case.get("accessor") else "graph"
+    post = x.get("post")
+    pfilter = None
+    if post:
+        if post["kind"] == "project":
+            keep = list(on) if isinstance(on, list) else []
+            rest = [c for c in pdf.columns if c not in keep]
+            keep += [c for i, c in enumerate(rest) if (post["cols"] >> (i % 16)) & 1][:4]
+            keep = keep or list(pdf.columns[:1])
+            pfilter = ("project", keep)
+        else:
+            fc = _remap([post["fcol"]], info, list(pdf.columns))[0]
+            thr = _threshold(pdf, fc, post["q"])
+            if thr is not None:
+                pfilter = ("filter", fc, thr)
+        if pfilter:
+            view += "&then-" + pfilter[0]
     feat = "shuffle:%s%s%s" % (method, "&multi-stage" if staged else "", onfeat)
-    desc = dict(case, input_npartitions=ddf.npartitions)
-    ok, parts = _guard(ctx, feat + ":" + view, lambda: _parts(ddf.shuffle(**kw), accessor=case.get("accessor")), desc)
+    desc = dict(case, input_npartitions=src_d.npartitions)
+    # a consumer after the shuffle is an optimiser rewrite (pushed below the shuffle) whatever the method: own small label set
+    pfeat = "shuffle%s:then-%s" % ("&on-dask-collection" if onkind in ("series", "indexobj", "frame") else onfeat, pfilter[0]) if pfilter else None
+
+    def build():
+        r = src_d.shuffle(**kw)
+        if pfilter and pfilter[0] == "project":
+            r = r[pfilter[1]]
+        elif pfilter:
+            r = r[r[pfilter[1]] >= pfilter[2]]
+        return _parts(r, accessor=case.get("accessor"))
+
+    ok, parts = _guard(ctx, pfeat or (feat + ":" + view), build, desc)
     if not ok:
         return
+    if x.get("ser"):
+        if not all(isinstance(q, pd.Series) for q in parts):
+            ctx.violation("%s:%s:kind" % (feat, view), "partitions of a shuffled Series are %s" % sorted({type(q).__name__ for q in parts}),
+                          case=desc)
+            return
+        parts = [q.to_frame() for q in parts]
+    if pfilter and pfilter[0] == "project":
+        src_p = src_p[pfilter[1]]
+    elif pfilter:
+        src_p = src_p[src_p[pfilter[1]] >= pfilter[2]]
     ctx.count("shuffles_checked")
     ctx.count("shuffle_partitions_observed", len(parts))
     ctx.count("shuffle_method_" + method)
+    if x:
+        ctx.count("shuffle_audit_cases")
+        for k in ("onkind", "ser", "force", "bignp", "big"):
+            if x.get(k):
+                ctx.count("shuffle_x_" + (k if k != "onkind" else "on_" + x[k].replace("+", "_")))
+        if pfilter:
+            ctx.count("shuffle_then_" + pfilter[0])
+        if info:
+            ctx.count("shuffle_after_pre_step")
     if staged:
         ctx.count("multi_stage_task_shuffles")
-    if nout != ddf.npartitions:
+    if nout != src_d.npartitions:
         ctx.count("shuffles_changing_npartitions")
     ctx.distinct("shuffle_feature", (feat, view, sorted(on) if isinstance(on, list) else on))
+    if pfeat:
+        m = F.compare(_concat(parts, src_p), src_p, ordered=False, check_index=not case["ignore_index"] and index_ok)
+        if m is not None:
+            ctx.violation(pfeat + ":rows", "rows of shuffle(...)%s differ from the same selection of the input (as multisets): %s: %s"
+                          % ("[columns]" if pfilter[0] == "project" else "[row filter]", m[0], m[1]), case=desc,
+                          partition_lengths=[len(q) for q in parts])
+            return
     # (1) equal keys never in two partitions (not observable when the key IS the index and ignore_index drops it)
     seen = {}
     nakey = False
-    observable = not (case["ignore_index"] and on in ("@index", "@name"))
+    observable = not (case["ignore_index"] and usesindex)
     if observable:
         ctx.count("shuffle_key_sets_checked")
     for i, p in enumerate(parts):
@@ -483,8 +849,8 @@ def _shuffle(case, ctx, pdf, ddf):
     if sum(1 for p in parts if len(p)) >= 2:
         ctx.count("shuffles_spreading_over_partitions")
     # (2) multiset of rows preserved
-    got = _concat(parts, pdf)
-    m = F.compare(got, pdf, ordered=False, check_index=not case["ignore_index"])
+    got = _concat(parts, src_p)
+    m = F.compare(got, src_p, ordered=False, check_index=not case["ignore_index"] and index_ok)
     if m is not None:
         ctx.violation("%s:%s:rows-%s" % (feat, view, m[0]), "rows of the shuffled frame differ from the input (as multisets): %s" % m[1],
                       case=desc, partition_lengths=[len(q) for q in parts])
@@ -538,17 +904,115 @@ def _colkind(s):
     return k
 
 
+def _sf_tiebreak(df, by=None, ascending=True, **kw):
+    """a user ``sort_function``: orders by the keys and then by the unique column ``u`` (the result is a total order)"""
+    asc = [ascending] * len(by) if isinstance(ascending, bool) else list(ascending)
+    return df.sort_values(by=list(by) + ["u"], ascending=asc + [True], **kw)
+
+
+def _head_check(ctx, feat, view, got, exp, pdf, keyframe, what, n, first_len, desc, check_index=True, feat2=None):
+    """``result.head(n)`` / ``.tail(n)``: the key sequence is pandas' (the n first / last of the ordered frame; by the
+    documented caveat of head()/tail() possibly only as many as the first / last partition holds) and every row is a
+    row of the input"""
+    from vf.gen import frames as F
+
+    tail = view == "tail"
+    if not isinstance(got, type(exp)):
+        ctx.violation("%s:%s:kind" % (feat, view), "got %s" % type(got).__name__, case=desc)
+        return
+    full = min(n, len(exp))
+    allowed = {full, min(n, first_len)} if first_len is not None else {full}
+    if len(got) not in allowed:
+        ctx.violation("%s:%s:rows-length" % (feat, view), "%d rows, pandas has %d (first/last partition holds %s)" % (len(got), full, first_len),
+                      case=desc)
+        return
+    e = exp.tail(len(got)) if tail else exp.head(len(got))
+    if list(got.columns) != list(e.columns):
+        ctx.violation("%s:%s:rows-columns" % (feat, view), "columns %s, pandas %s" % (list(got.columns), list(e.columns)), case=desc)
+        return
+    gk, ek = keyframe(got).reset_index(drop=True), keyframe(e).reset_index(drop=True)
+    m = F.compare(gk, ek, ordered=True, check_index=False, check_dtype=False)
+    if m is not None:
+        lab = "%s:%s:%s-order" % (feat, view, what)
+        if feat2 is not None and gk.shape[1] > 1 and \
+                F.compare(gk.iloc[:, :1], ek.iloc[:, :1], ordered=True, check_index=False, check_dtype=False) is None:
+            lab = "%s:%s:secondary-%s-order" % (feat2, view, what)
+        ctx.violation(lab, "%s sequence of %s(%d) differs from pandas: got %s, expected %s"
+                      % (what, view, n, key_tuples(gk)[:14], key_tuples(ek)[:14]), case=desc)
+        return
+    # every returned row is a row of the ordered frame (ties at the cut may be any of the tied rows)
+    from collections import Counter
+
+    def rows(f):
+        t = key_tuples(f.reset_index(drop=True))
+        return [a + (_norm(i),) for a, i in zip(t, f.index.astype(object).tolist())] if check_index else t
+
+    ce, cg = Counter(rows(exp)), Counter(rows(got))
+    bad = [t for t, k in cg.items() if k > ce.get(t, 0)]
+    if bad:
+        ctx.violation("%s:%s:rows-values" % (feat, view), "%s(%d) returns rows that the frame does not hold: %s" % (view, n, bad[:3]), case=desc)
+
+
 def _sort(case, ctx, pdf, ddf):
+    from vf.gen import frames as F
+
+    x = case.get("x") or {}
+    pre = _pre(case, ctx, pdf, ddf)
+    if pre is None:
+        return
+    pdf, ddf, info = pre
+    by = _remap(case["by"], info, list(pdf.columns))
+    asc = case["asc"]
+    if not isinstance(asc, bool) and len(asc) != len(by):
+        asc = (list(asc) + [True] * len(by))[:len(by)]
+    case = dict(case, by=by, asc=asc)
+    if x.get("presort") and info is None:
+        # the input is already ordered by the first key (ascending / descending / as the sort asks): the presorted shortcut
+        a0 = asc if isinstance(asc, bool) else asc[0]
+        up = {"asc": True, "desc": False, "match": a0}[x["presort"]]
+        try:
+            pdf = pdf.sort_values(by[0], ascending=up, kind="stable", na_position=case["na"] if up == a0 else "last")
+            ddf = F.partition(pdf, case["part"])
+        except Exception as e:  # noqa: BLE001
+            ctx.reject("pandas: %s" % e)
+            return
+        ctx.count("sorts_on_presorted_input")
+    good = _sort_core(case, ctx, pdf, ddf, info, x, second=False)
+    if good and x.get("second"):
+        # STATE: a second sort of the same collection with the same first key / npartitions / direction (the quantile
+        # divisions of the first one are cached) but other later keys, na_position and shuffle method
+        s2 = x["second"]
+        by2 = list(dict.fromkeys([by[0]] + _remap(s2["by2"], info, list(pdf.columns))))[:3]
+        a0 = asc if isinstance(asc, bool) else asc[0]
+        asc2 = [a0] + [bool(v) for v in (s2["asc2"] + [True])[:len(by2) - 1]]
+        c2 = dict(case, by=by2, asc=asc2, na=s2["na"], method=s2["method"], byform="list", also_compute=False)
+        ctx.count("sorts_second_on_same_collection")
+        _sort_core(c2, ctx, pdf, ddf, info, {k: v for k, v in x.items() if k == "upsample"}, second=True)
+
+
+def _sort_core(case, ctx, pdf, ddf, info, x, second):
     by = list(case["by"])
     asc = case["asc"]
     kw = {"ascending": asc, "na_position": case["na"], "npartitions": case["np"], "shuffle_method": case["method"],
           "ignore_index": case["ignore_index"]}
     kw.update(_opts(case))
+    ucol = (info["colmap"].get("u", "u") if info else "u")
+    total = bool(x.get("sf")) and (info is None or info["u_unique"]) and ucol in pdf.columns and ucol == "u"
+    asc_list = [asc] * len(by) if isinstance(asc, bool) else list(asc)
+    if x.get("sf") == "func" and total:
+        kw["sort_function"] = _sf_tiebreak
+    elif x.get("sf") == "kwargs" and total:
+        kw["sort_function_kwargs"] = {"by": by + ["u"], "ascending": asc_list + [True]}
+    if x.get("upsample"):
+        kw["upsample"] = x["upsample"]
     try:
-        exp = pdf.sort_values(by, ascending=asc, na_position=case["na"], kind="stable")
+        if total:
+            exp = pdf.sort_values(by + ["u"], ascending=asc_list + [True], na_position=case["na"], kind="stable")
+        else:
+            exp = pdf.sort_values(by, ascending=asc, na_position=case["na"], kind="stable")
     except Exception as e:  # noqa: BLE001
         ctx.reject("pandas: %s" % e)
-        return
+        return False
     nakeys = bool(pdf[by].isna().any().any())
     na0 = bool(pdf[by[0]].isna().any())
     asc0 = asc if isinstance(asc, bool) else asc[0]
@@ -578,15 +1042,17 @@ def _sort(case, ctx, pdf, ddf):
                                               "&mixed-ascending" if isinstance(asc, list) and len(set(asc)) > 1 else "")
     # (a nullable boolean key fails on any NA, an all-NA partition is not needed: one label)
     efeat = "sort_values:first-key=%s%s%s" % (k0, "&na" if na0 else "", "" if k0 == "boolean" else allna)
+    if case["np"] == "auto":
+        efeat = "sort_values:npartitions=auto"
     refine = None
     desc = dict(case, input_npartitions=ddf.npartitions)
-    byarg = by[0] if case.get("byform") == "str" else by
+    byarg = by[0] if case.get("byform") == "str" and len(by) == 1 else by
     r_ok, r = _guard(ctx, efeat, lambda: ddf.sort_values(byarg, **kw), desc, refine)
     if not r_ok:
-        return
+        return False
     ok, parts = _guard(ctx, efeat, lambda: _parts(r), desc, refine)
     if not ok:
-        return
+        return False
     ctx.count("sorts_checked")
     if nakeys:
         ctx.count("sorts_with_na_keys")
@@ -595,35 +1061,157 @@ def _sort(case, ctx, pdf, ddf):
     if len(parts) >= 2 and sum(1 for p in parts if len(p)) >= 2:
         ctx.count("sorts_with_several_output_partitions")
     ctx.distinct("sort_feature", (feat, sorted(str(pdf[c].dtype) for c in by)))
+    if x or second:
+        ctx.count("sort_audit_cases")
+        for k in ("upsample", "big"):
+            if x.get(k):
+                ctx.count("sort_x_" + k)
+        if info:
+            ctx.count("sort_after_pre_step")
+        if x.get("presort"):
+            try:
+                if not any("Shuffle" in type(e).__name__ for e in r.optimize(fuse=False).expr.walk()):
+                    ctx.count("sorts_lowered_without_shuffle")
+            except Exception:  # noqa: BLE001
+                pass
     got = _concat(parts, pdf)
     # dask's ignore_index gives partition-local labels: the index is not compared then (see Calibration)
-    ci = not case["ignore_index"]
+    ci = not case["ignore_index"] and (info is None or info["index_ok"])
     good = _ordered_check(ctx, feat, "graph", got, exp, lambda f: f[by], "key", desc, check_index=ci, feat2=feat2)
-    if case.get("also_compute") and good:
+    if good and total:
+        # with a sort function that breaks every tie the whole row sequence is determined
+        from vf.gen import frames as F
+
+        ctx.count("sorts_with_sort_function_" + x["sf"])
+        m = F.compare(got, exp, ordered=True, check_index=ci)
+        if m is not None:
+            ctx.violation("sort_values:%s:graph:rows-order" % ("sort_function" if x["sf"] == "func" else "sort_function_kwargs"),
+                          "the user's partition sort (keys, then the unique column) was not applied: %s" % m[1][:300], case=desc)
+            good = False
+    if case.get("also_compute") and good and not x.get("post"):
         ok, whole = _guard(ctx, efeat + ":compute", lambda: r.compute(scheduler="sync"), desc, refine)
         if ok:
             ctx.count("compute_views")
             _ordered_check(ctx, feat, "compute", whole, exp, lambda f: f[by], "key", desc, check_index=ci, feat2=feat2)
+    post = x.get("post") if good and not second else None
+    if post:
+        # head / tail never reach the partitioning: their own (smaller) feature set
+        # (NA in ANY key with na_position="first" is one mechanism there)
+        nafirst = nakeys and case["na"] == "first"
+        hfeat = "sort_values:na-in-keys&na_position=first" if nafirst else \
+            "sort_values:first-key=%s%s%s" % (k0, "&na&na_position=last" if na0 else "", "" if asc0 else "&descending")
+        _sorted_post(ctx, "sort", feat, "sort_values", None if nafirst else feat2, r, exp, pdf, parts, post, info, lambda f: f[by], "key",
+                     desc, ci, by, hfeat)
     ctx.sample = {"feat": feat, "partition_lengths": [len(p) for p in parts][:12]}
+    return good
+
+
+def _sorted_post(ctx, facet, feat, efeat, feat2, r, exp, pdf, parts, post, info, keyframe, what, desc, ci, keycols, hfeat=None):
+    """a consumer of the ordered collection that the optimiser rewrites around the sort: head / tail (NFirst / NLast),
+    a column selection, a row filter (both pushed below the sort)"""
+    kind = post["kind"]
+    if kind in ("head", "tail"):
+        n = post["n"]
+        nonempty = [len(p) for p in parts]
+        first_len = (nonempty[-1] if kind == "tail" else nonempty[0]) if nonempty else 0
+        ok, got = _guard(ctx, "%s:%s" % (efeat, kind), (lambda: r.tail(n)) if kind == "tail" else (lambda: r.head(n)), desc)
+        if not ok:
+            return
+        ctx.count("%s_then_%s" % (facet, kind))
+        _head_check(ctx, hfeat or feat, kind, got, exp, pdf, keyframe, what, n, first_len, desc, check_index=ci, feat2=feat2)
+        return
+    if kind == "project":
+        rest = [c for c in exp.columns if c not in keycols]
+        cols = [c for i, c in enumerate(rest) if (post["cols"] >> (i % 16)) & 1][:4]
+        if facet == "sort":
+            # the sort keys are NOT selected: the unique column recovers them for the order check
+            ucol = info["colmap"].get("u", "u") if info else "u"
+            if ucol not in exp.columns or not exp[ucol].is_unique:
+                return
+            cols = list(dict.fromkeys([ucol] + [c for c in cols if c != ucol]))
+        elif not cols:
+            cols = rest[:1]
+        if not cols:
+            return
+        ok, p2 = _guard(ctx, "%s:project" % efeat, lambda: _parts(r[cols]), desc)
+        if not ok:
+            return
+        ctx.count("%s_then_project" % facet)
+        got = _concat(p2, exp[cols])
+        e2 = exp[cols]
+        if facet == "sort":
+            if list(got.columns) != cols or len(got) != len(e2) or sorted(got[ucol].tolist()) != sorted(e2[ucol].tolist()):
+                ctx.violation("%s:project:rows-values" % feat, "selection %s after the sort: columns %s, %d rows (pandas %d)"
+                              % (cols, list(got.columns), len(got), len(e2)), case=desc)
+                return
+            look = exp.set_index(ucol)[keycols]
+            g2 = got.copy()
+            for c in keycols:
+                g2["__k_" + c] = look[c].reindex(got[ucol]).values
+            e3 = e2.copy()
+            for c in keycols:
+                e3["__k_" + c] = exp[c].values
+            kc = ["__k_" + c for c in keycols]
+            _ordered_check(ctx, feat, "project", g2, e3, lambda f: f[kc], what, desc, check_index=ci, feat2=feat2)
+        else:
+            _ordered_check(ctx, feat, "project", got, e2, keyframe, what, desc, check_index=ci)
+        return
+    if kind == "filter":
+        fc = _remap([post["fcol"]], info, list(exp.columns))[0]
+        thr = _threshold(exp, fc, post["q"])
+        if thr is None:
+            return
+        ok, p2 = _guard(ctx, "%s:filter" % efeat, lambda: _parts(r[r[fc] >= thr]), desc)
+        if not ok:
+            return
+        ctx.count("%s_then_filter" % facet)
+        e2 = exp[exp[fc] >= thr]
+        _ordered_check(ctx, feat, "filter", _concat(p2, e2), e2, keyframe, what, desc, check_index=ci, feat2=feat2)
 
 
 # ---- set_index -------------------------------------------------------------------------------------------------------
 def _set_index(case, ctx, pdf, ddf):
+    x = case.get("x") or {}
+    pre = _pre(case, ctx, pdf, ddf)
+    if pre is None:
+        return
+    pdf, ddf, info = pre
+    col = _remap([case["col"]], info, list(pdf.columns))[0]
+    case = dict(case, col=col)
+    good = _set_index_core(case, ctx, pdf, ddf, info, x, second=False)
+    if good and x.get("second") and case["mode"] in ("plain", "npartitions", "divisions"):
+        # STATE: the same collection indexed a second time by the same column (cached quantile divisions), other drop / method
+        s2 = x["second"]
+        ctx.count("set_index_second_on_same_collection")
+        _set_index_core(dict(case, drop=s2["drop"], method=s2["method"], also_compute=False), ctx, pdf, ddf, info,
+                        {k: v for k, v in x.items() if k in ("upsample", "other")}, second=True)
+
+
+def _set_index_core(case, ctx, pdf, ddf, info, x, second):
     import pandas as pd
 
     from vf.gen import frames as F
 
     col, mode = case["col"], case["mode"]
+    other = x.get("other")
     kw = {"drop": case["drop"]}
-    if case["method"] is not None and mode != "sorted":
+    if mode in ("sorted", "sorted_div") and info is not None:
+        mode = "plain"            # (a pre-step fixes the partitioning: no really sorted input can be built)
+    shuffling = mode in ("plain", "npartitions", "divisions", "auto")
+    if case["method"] is not None and shuffling:
         kw["shuffle_method"] = case["method"]
-    if mode != "sorted":
+    if shuffling:
         kw.update(_opts(case))
-    hasna = bool(pdf[col].isna().any())
-    if hasna and (mode == "sorted" or _kindof(pdf[col].dtype) not in ("float", "Int64")):
+        if x.get("upsample"):
+            kw["upsample"] = x["upsample"]
+    if other == "expr" and not pd.api.types.is_numeric_dtype(pdf[col].dtype):
+        other = "series"
+    keyser = pdf[col] * 2 if other == "expr" else pdf[col]
+    hasna = bool(keyser.isna().any())
+    if hasna and (mode in ("sorted", "sorted_div") or _kindof(pdf[col].dtype) not in ("float", "Int64")):
         # nulls in a non-numeric index are documented as not supported; "really sorted" is undefined with nulls
         ctx.reject("set_index on a non-numeric column with nulls / sorted=True with nulls: outside the documented domain")
-        return
+        return False
     if mode == "sorted":
         # really sorted input: sort the pandas frame by the column first (stable), then partition it by position
         pdf = pdf.sort_values(col, kind="stable")
@@ -634,16 +1222,38 @@ def _set_index(case, ctx, pdf, ddf):
             ddf = F.partition(pdf, part)
         except NotImplementedError as e:
             ctx.unsupported("source: %s" % e)
-            return
+            return False
         kw["sorted"] = True
+    elif mode == "sorted_div":
+        # sorted=True WITH divisions: the partitions are cut exactly at the division values
+        if isinstance(pdf[col].dtype, pd.CategoricalDtype) or len(pdf) == 0:
+            ctx.reject("sorted=True with divisions: no division vector for a categorical / empty column")
+            return False
+        pdf = pdf.sort_values(col, kind="stable")
+        vals = sorted(pd.unique(pdf[col]).tolist())
+        rng = random.Random(case["dseed"])
+        cutv = sorted(rng.sample(vals[1:], min(len(vals) - 1, max(0, case["np"] - 1))), key=vals.index)
+        cv = pdf[col].tolist()
+        cuts = [cv.index(v) for v in cutv]
+        try:
+            ddf = F.partition(pdf, {"how": rng.choice(("slices", "delayed")), "cuts": cuts})
+        except NotImplementedError as e:
+            ctx.unsupported("source: %s" % e)
+            return False
+        kw["sorted"] = True
+        kw["divisions"] = [_norm_div(v) for v in [vals[0]] + cutv + [vals[-1]]]
+    elif mode == "nosort":
+        kw["sort"] = False
+    elif mode == "auto":
+        kw["npartitions"] = "auto"
     elif mode == "npartitions":
         kw["npartitions"] = case["np"]
     elif mode == "divisions":
-        vals = sorted(pd.unique(pdf[col].dropna()).tolist()) if not isinstance(pdf[col].dtype, pd.CategoricalDtype) else \
+        vals = sorted(pd.unique(keyser.dropna()).tolist()) if not isinstance(pdf[col].dtype, pd.CategoricalDtype) else \
             [c for c in pdf[col].cat.categories if (pdf[col] == c).any()]
         if len(vals) == 0:
             ctx.reject("no values to draw divisions from")
-            return
+            return False
         rng = random.Random(case["dseed"])
         inner = vals[1:-1]
         take = sorted(rng.sample(inner, min(len(inner), max(0, case["np"] - 1))), key=vals.index)
@@ -657,11 +1267,21 @@ def _set_index(case, ctx, pdf, ddf):
                 head.append(v)
         d = head + [d[-1]]
         kw["divisions"] = [_norm_div(v) for v in d]
+    if other == "expr":
+        argp, argd = (lambda: pdf[col] * 2), (lambda: ddf[col] * 2)
+    elif other == "series":
+        argp, argd = (lambda: pdf[col]), (lambda: ddf[col])
+    elif other == "list1":
+        argp, argd = (lambda: [col]), (lambda: [col])
+    else:
+        argp, argd = (lambda: col), (lambda: col)
     try:
-        exp = pdf.set_index(col, drop=case["drop"]).sort_index(kind="stable")
+        exp = pdf.set_index(argp(), drop=case["drop"])
+        if mode != "nosort":
+            exp = exp.sort_index(kind="stable")
     except Exception as e:  # noqa: BLE001
         ctx.reject("pandas: %s" % e)
-        return
+        return False
     ck = _colkind(pdf[col])
     allna = _all_na_partition(ddf, col) if hasna else ""
     if allna == "&all-NA-column" and ck != "float":
@@ -671,11 +1291,16 @@ def _set_index(case, ctx, pdf, ddf):
     if "not-in-lexical-order" in ck and mode == "divisions":
         # divisions must be python-sorted (documented ValueError otherwise); no vector is both sorted and in category order
         ctx.reject("no valid division vector for an unordered categorical with non-lexical category order")
-        return
+        return False
     pres = _presorted_ignoring_na(ddf, col) if hasna and not allna and mode in ("plain", "npartitions") else ""
     if pres:
         ctx.count("set_index_presorted_by_non_na_values")
-    if "not-in-lexical-order" in ck and mode != "sorted":
+    ofeat = {"expr": "&other=series-expression", "series": "&other=series"}.get(other, "")
+    if mode == "nosort":
+        feat = "set_index:sort=False:%s-column%s" % (ck, ofeat)
+    elif mode == "sorted_div":
+        feat = "set_index:sorted&divisions:%s-column%s" % (ck, ofeat)
+    elif "not-in-lexical-order" in ck and mode != "sorted":
         feat = "set_index:%s-column" % ck          # one mechanism whatever the mode
     else:
         fmode = "quantile-divisions" if (allna or pres) and mode in ("plain", "npartitions") else mode
@@ -685,23 +1310,44 @@ def _set_index(case, ctx, pdf, ddf):
                                 "&category-column" if ck.startswith("category") and mode == "sorted" else
                                 "&empty-frame" if len(pdf) == 0 and mode == "sorted" else
                                 "&bool-column" if ck == "bool" and mode == "sorted" else "")
+    if mode == "auto":
+        efeat = "set_index:npartitions=auto"
+    elif other in ("series", "expr") and mode == "npartitions" and case["np"] == 1 and ddf.npartitions > 1:
+        efeat = "set_index:other=series&npartitions=1&several-input-partitions"
     refine = None
     desc = dict(case, input_npartitions=ddf.npartitions, kwargs={k: str(v)[:120] for k, v in kw.items()})
-    r_ok, r = _guard(ctx, efeat, lambda: ddf.set_index(col, **kw), desc, refine)
+    r_ok, r = _guard(ctx, efeat, lambda: ddf.set_index(argd(), **kw), desc, refine)
     if not r_ok:
-        return
+        return False
     ok, parts = _guard(ctx, efeat, lambda: _parts(r), desc, refine)
     if not ok:
-        return
+        return False
     ctx.count("set_index_checked")
     ctx.count("set_index_" + mode)
     if len(parts) >= 2 and sum(1 for p in parts if len(p)) >= 2:
         ctx.count("set_index_with_several_output_partitions")
     ctx.distinct("set_index_feature", feat)
+    if x or second:
+        ctx.count("set_index_audit_cases")
+        for k in ("upsample", "big"):
+            if x.get(k) and shuffling:
+                ctx.count("set_index_x_" + k)
+        if other:
+            ctx.count("set_index_other_" + other)
+        if info:
+            ctx.count("set_index_after_pre_step")
     got = _concat(parts, exp)
     keyframe = lambda f: f.index.to_frame(index=False)  # noqa: E731
+    if mode == "nosort":
+        # sort=False "operates exactly like pandas.set_index": same rows in the same order
+        # (after a pre-step the row order of the input is already dask's own: multiset then)
+        m = F.compare(got, exp, ordered=info is None)
+        if m is not None:
+            ctx.violation("%s:graph:rows-%s" % (feat, m[0]), "set_index(sort=False) differs from pandas.set_index: %s" % m[1][:300], case=desc)
+        ctx.sample = {"feat": feat, "partition_lengths": [len(p) for p in parts][:12]}
+        return m is None
     good = _ordered_check(ctx, feat, "graph", got, exp, keyframe, "index", desc)
-    if case.get("also_compute") and good:
+    if case.get("also_compute") and good and not x.get("post"):
         # (the graph view was right: an exception here comes from what compute() appends, whatever the column)
         ok, whole = _guard(ctx, "set_index:%s:compute" % mode, lambda: r.compute(scheduler="sync"), desc, refine)
         if ok:
@@ -717,7 +1363,15 @@ def _set_index(case, ctx, pdf, ddf):
                 ctx.distinct("side_divisions_monitor_kinds", (mode, dv[0]))
     except Exception:  # noqa: BLE001
         pass
+    post = x.get("post") if good and not second else None
+    if post:
+        keycols = [c for c in [col] if c not in exp.columns]
+        hfeat = "set_index:drop=False" if (not case["drop"] and other in (None, "list1")) else \
+            "set_index:other=series" if other in ("series", "expr") else "set_index:%s-column%s" % (ck, "&na-values" if hasna else "")
+        _sorted_post(ctx, "set_index", feat, "set_index" + ("&other=series" if other in ("series", "expr") else ""), None, r, exp, pdf,
+                     parts, post, info, keyframe, "index", desc, True, keycols, hfeat)
     ctx.sample = {"feat": feat, "partition_lengths": [len(p) for p in parts][:12]}
+    return good
 
 
 def _norm_div(v):
@@ -754,11 +1408,38 @@ def _dedup(case, ctx, pdf, ddf):
     # which machinery decides the surviving duplicate: a tree reduction (split_out=1) or a shuffle of the given method
     # (None resolves to "tasks": dask prefers the order-keeping method)
     spath = "tree-reduce" if (so is not True and so == 1) else "shuffle=%s" % (method or "tasks")
+    x = case.get("x") or {}
+    if x:
+        ctx.count("dedup_audit_cases")
+    # size classes of the reduction: more input partitions than split_every
+    if isinstance(se, int) and not isinstance(se, bool) and se >= 2 and ddf.npartitions > se:
+        if so is not True and so == 1:
+            ctx.count("dedup_tree_reduce_with_intermediate_level")
+        elif so is not True and ddf.npartitions // se > so:
+            ctx.count("dedup_shuffle_wider_than_split_out")
     if kind in ("df", "preshuffled"):
         cols = list(dict.fromkeys(case["dcols"]))
         sub = {"first1": cols[:1], "first2": cols[:2], "some": cols[-1:], None: None}[case["subset"]]
         p2, d2 = pdf[cols], ddf[cols]
-        if kind == "preshuffled":
+        if kind == "preshuffled" and x.get("pre"):
+            # partitioning knowledge from an earlier shuffle / merge / groupby / drop_duplicates on a key TUPLE; the
+            # de-duplication then runs on a part of it, all of it, more than it, or other columns
+            pre = _pre(case, ctx, pdf, ddf)
+            if pre is None:
+                return
+            pfull, dfull, info = pre
+            cols = _remap(cols, info, list(pfull.columns))
+            sub = _remap(x["subset"], info, list(pfull.columns)) if x.get("subset") else None
+            if sub is not None:
+                cols = list(dict.fromkeys(cols + sub))
+            p2, d2 = pfull[cols], dfull[cols]
+            ctx.count("drop_duplicates_after_shuffle")
+            ctx.count("drop_duplicates_after_pre_step_" + info["kind"].split("+")[0])
+            if sub is not None:
+                ks, ss = set(info["keys"]), set(sub)
+                ctx.count("dedup_subset_%s_known_keys" % ("equals" if ss == ks else "part_of" if ss < ks else "superset_of" if ss > ks
+                                                          else "overlaps" if ss & ks else "disjoint_from"))
+        elif kind == "preshuffled":
             # shuffled on one dedup key (no second shuffle needed), on all columns, or on the first two columns (a superset
             # of a one-column subset: equal subset keys are then NOT co-located and a second shuffle is needed)
             pre = {"key1": (sub or cols)[:1], "all": cols, "first2": cols[:2]}[case.get("pre", "key1")]
@@ -769,6 +1450,10 @@ def _dedup(case, ctx, pdf, ddf):
                 # shuffle below DropDuplicates; with it DropDuplicates may REUSE the partitioning of that shuffle
                 d2, p2 = d2.assign(zz=1), p2.assign(zz=1)
                 cols = cols + ["zz"]
+        subarg = sub
+        if x.get("subset_str") and sub is not None and len(sub) == 1:
+            subarg = sub[0]
+            ctx.count("dedup_subset_as_string")
         if keep is False:
             try:
                 d2.drop_duplicates(subset=sub, keep=False)
@@ -781,7 +1466,7 @@ def _dedup(case, ctx, pdf, ddf):
         exp = p2.drop_duplicates(subset=sub, keep=keep, ignore_index=False)
         feat = "drop_duplicates:frame%s:%s&keep=%s:%s" % ("&pre-shuffled" if kind == "preshuffled" else "",
                                                         "subset" if sub else "whole-row", keep, sfeat)
-        kwargs = {"subset": sub, "keep": keep, "split_out": so, "split_every": se, "shuffle_method": method,
+        kwargs = {"subset": subarg, "keep": keep, "split_out": so, "split_every": se, "shuffle_method": method,
                   "ignore_index": case["ignore_index"]}
         ok, got = _guard(ctx, feat, lambda: _concat(_parts(d2.drop_duplicates(**kwargs)), p2), desc)
         if not ok:
@@ -846,8 +1531,11 @@ def _dedup(case, ctx, pdf, ddf):
                     ctx.violation(feat + ":value", "Index.nunique %r, pandas %r" % (got, exp), case=desc)
             return
         exp = pdf.index.drop_duplicates() if iop == "drop_duplicates" else pdf.index.unique()
-        fn = (lambda: ddf.index.drop_duplicates(split_out=so).compute(scheduler="sync")) if iop == "drop_duplicates" else \
-            (lambda: ddf.index.unique().compute(scheduler="sync"))
+        ikw = {"split_every": se, "split_out": so, "shuffle_method": method} if x.get("ixkw") else {}
+        if ikw:
+            ctx.count("index_dedup_with_keywords")
+        fn = (lambda: ddf.index.drop_duplicates(**(ikw or {"split_out": so})).compute(scheduler="sync")) if iop == "drop_duplicates" else \
+            (lambda: ddf.index.unique(**ikw).compute(scheduler="sync"))
         ok, got = _guard(ctx, feat, fn, desc)
         if ok:
             ctx.count("unique_checked")
@@ -858,6 +1546,10 @@ def _dedup(case, ctx, pdf, ddf):
     sc = case["scol"]
     ps, ds = pdf[sc], ddf[sc]
     dk = _kindof(ps.dtype)
+    if x.get("serpre"):
+        # the column of a frame that was shuffled on it before (partitioning knowledge reaches the Series reduction)
+        ds = ddf.shuffle(on=[sc], shuffle_method=method).assign(zz=1)[sc]
+        ctx.count("series_dedup_after_shuffle")
     if kind == "series":
         if keep is False:
             try:
@@ -878,6 +1570,8 @@ def _dedup(case, ctx, pdf, ddf):
             ctx.violation("drop_duplicates:series:%s:%s:keys-values" % (dk, spath),
                           "got %s, pandas %s" % (_valuelist(got)[:12], _valuelist(exp)[:12]), case=desc)
             return
+        if x.get("serpre"):
+            return          # (after an explicit shuffle "first"/"last" are undefined: keys only)
         ctx.count("survivor_checked")
         m = F.compare(got, exp, ordered=False, check_index=not case["ignore_index"])
         if m is not None:
